@@ -36,9 +36,11 @@ def build(tier="quick", seed=0):
     strength_cache(b)
     notification(b)
     cascade(b)
+    orbit_derivatives(b)
     b.replayer("*::ensures:love_numbers_current*", _replay_fixed_q)
     b.replayer("*::invariant:compliance_is_reciprocal_shear*", _replay_strength)
     b.replayer("*::ensures:orbit_is_told*", _replay_strength)
+    b.replayer("*PhysicsOrbit.dissipation_changed::*", _replay_orbit_derivs)
     b.replayer("*::forwards", _replay_stale)
     b.replayer("*::ensures:spin_follows_orbit*", _replay_c13)
     b.replayer("*#global_sums*", _replay_c13)
@@ -466,6 +468,91 @@ def cascade(b):
             "ensures (world has a tides model) the tides model is told that complex compliances changed, with the caller's collapse flag")
 
 
+def orbit_derivatives(b):
+    """PhysicsOrbit: the stored da/dt, de/dt, dn/dt of a tidal body are the functional API (single / dual semia_eccen_derivatives) evaluated at the
+    orbit's CURRENT a, n, e and at the CURRENT masses and potential derivatives of the right bodies - whoever's dissipation changed (the body, or the
+    tidal host whose tide raiser it is) - and dn/dt = -(3/2)(n/a) da/dt.  Executed from the real source with recording stubs for the two functions."""
+    FPO = "TidalPy/structures/orbit/physics.py"
+    try:
+        base = ClassModel("OrbitBase", FO)
+        cls = ClassModel("PhysicsOrbit", FPO, bases=[base])
+    except ExtractError as e:
+        b.subset_exits.append(str(e))
+        return
+    genv = dict(all_world_types="WORLD_TYPES", BadWorldSignature="BadWorldSignature", BadWorldSignatureType="BadWorldSignatureType", TidalPyOrbitError="TidalPyOrbitError")
+    for host_active, body_active, body_is_raiser, changed in ((False, True, True, "body"), (True, True, True, "body"), (True, True, True, "host"), (True, False, True, "host"), (True, True, False, "body"), (False, True, False, "body")):
+        rec = []
+
+        def mk_world(nm, active):
+            return Obj(None, name=nm, mass=R(nm + "_mass"), tides_on=True, tides=("TIDES" if active else None), dUdM=(R(nm + "_dUdM") if active else None), dUdw=(R(nm + "_dUdw") if active else None),
+                       dUdO=(R(nm + "_dUdO") if active else None))
+        host, body, other = mk_world("host", host_active), mk_world("body", body_active), mk_world("other", False)
+        worlds = [host, body, other]
+        slot = 1
+        a_, n_, e_ = [[R(f"{q}{i}") for i in range(3)] for q in ("a", "n", "e")]
+        o = Obj(cls, _semi_major_axes=list(a_), _orbital_frequencies=list(n_), _orbital_periods=[R(f"P{i}") for i in range(3)], _eccentricities=list(e_), _tidal_objects=worlds, _tidal_host=host,
+                _star=Obj(None, name="star", mass=R("star_mass")), _host_tide_raiser=(body if body_is_raiser else other), _star_host=False,
+                _all_tidal_world_orbit_index_by_instance={body: sp.Integer(1), other: sp.Integer(2)}, _all_tidal_world_orbit_index_by_name={"body": sp.Integer(1), "other": sp.Integer(2)},
+                _eccentricity_time_derivatives=[R(f"de_old{i}") for i in range(3)], _semi_major_axis_time_derivatives=[R(f"da_old{i}") for i in range(3)],
+                _orbital_motion_time_derivatives=[R(f"dn_old{i}") for i in range(3)], _last_calc_used_dual_body=None)
+        da_s, de_s = R("da_from_single"), R("de_from_single")
+        da_d, de_d = R("da_from_dual"), R("de_from_dual")
+
+        def single(ex, node_, *a__, **k__):
+            rec.append(("single", tuple(a__), dict(k__)))
+            return (da_s, de_s)
+
+        def dual(ex, node_, *a__, **k__):
+            rec.append(("dual", tuple(a__), dict(k__)))
+            return (da_d, de_d)
+        c, node = cls.lookup("methods", "dissipation_changed")
+        if node is None:
+            b.subset_exits.append(f"{FPO}::PhysicsOrbit.dissipation_changed: method not found")
+            return
+        mfn = MethodFn(c, node)
+        b.functions[mfn.key] = mfn.info()
+        ex = Exec(mfn, globals_env=dict(genv, semia_eccen_derivatives=single, semia_eccen_derivatives_dual=dual), contracts={}, opts=dict(definedness=False, max_recursion=4))
+        label = f"host_active={int(host_active)};body_active={int(body_active)};body_is_tide_raiser={int(body_is_raiser)};changed={changed}"
+        try:
+            paths = ex.run({"self": o, "world_signature": host if changed == "host" else body})
+        except SymExError as e:
+            b.subset_exits.append(f"{mfn.key} [{label}]: {e}")
+            continue
+        for f_ in ex.called:
+            b.functions.setdefault(f_, dict(function=f_, note="executed inline from the real class source"))
+        if len(paths) != 1 or paths[0].outcome != "return":
+            b.subset_exits.append(f"{mfn.key} [{label}]: {[p_.outcome for p_ in paths]}")
+            continue
+        # expected call
+        host_counts = host_active and body_is_raiser
+        if host_counts and body_active:
+            want = ("dual", (a_[slot], n_[slot], e_[slot], host._attrs["mass"], host._attrs["dUdM"], host._attrs["dUdw"], body._attrs["mass"], body._attrs["dUdM"], body._attrs["dUdw"]))
+            da, de = da_d, de_d
+        elif host_counts:
+            want = ("single", (a_[slot], n_[slot], e_[slot], host._attrs["mass"], host._attrs["dUdM"], host._attrs["dUdw"], body._attrs["mass"]))
+            da, de = da_s, de_s
+        elif body_active:
+            want = ("single", (a_[slot], n_[slot], e_[slot], body._attrs["mass"], body._attrs["dUdM"], body._attrs["dUdw"], host._attrs["mass"]))
+            da, de = da_s, de_s
+        else:
+            want = None
+        if changed == "host" and not body_is_raiser:
+            continue
+        A, E, N = o._attrs["_semi_major_axis_time_derivatives"], o._attrs["_eccentricity_time_derivatives"], o._attrs["_orbital_motion_time_derivatives"]
+        if want is None:
+            ok = not rec and A[slot] is None and E[slot] is None and N[slot] is None
+            ground(b, f"{mfn.key}::ensures:derivatives_current[{label}]", mfn.key, "ensures (no active tides) the stored derivatives of the slot are cleared, not left at values of an earlier state", ok, detail=f"{rec} {A[slot]} {E[slot]} {N[slot]}")
+            continue
+        args_ok = len(rec) == 1 and rec[0][0] == want[0] and not rec[0][2] and len(rec[0][1]) == len(want[1]) and all(x_ is y_ or x_ == y_ for x_, y_ in zip(rec[0][1], want[1]))
+        ground(b, f"{mfn.key}::ensures:functional_api_arguments[{label}]", mfn.key,
+               "ensures the single / dual derivative function is evaluated once, at the orbit's current (a, n, e) of the body's slot and the current (mass, dU/dM, dU/dw) of the active body first (dual: host, then body) and the other body's mass",
+               args_ok, detail=f"called {[(r_[0], [str(x_) for x_ in r_[1]]) for r_ in rec]}; expected {want[0]} {[str(x_) for x_ in want[1]]}"[:500],
+               refuted_model=None if args_ok else dict(called=str([(r_[0], [str(x_) for x_ in r_[1]]) for r_ in rec])[:300], expected=str((want[0], [str(x_) for x_ in want[1]]))[:300]))
+        stored = sp.And(sp.Eq(sp.sympify(A[slot]), da), sp.Eq(sp.sympify(E[slot]), de), sp.Eq(sp.sympify(N[slot]), -sp.Rational(3, 2) * (n_[slot] / a_[slot]) * da)) if all(x_ is not None for x_ in (A[slot], E[slot], N[slot])) else sp.false
+        b.add(Obligation(oid=f"{mfn.key}::ensures:derivatives_current[{label}]", fn=mfn.key, clause="ensures the slot stores the returned da/dt, de/dt and dn/dt == -(3/2)(n/a) da/dt; other slots untouched",
+                         goal=sp.And(stored, *[sp.Eq(sp.sympify(X[j]), sp.Symbol(f"{q}_old{j}", real=True)) for X, q in ((A, "da"), (E, "de"), (N, "dn")) for j in (0, 2)]), hyps=[sp.Gt(a_[slot], 0)] + paths[0].hyps))
+
+
 def layered_sums(b):
     """LayeredTides.collapse_modes: the global heating / potential derivatives are the sums over the tidally active layers, for ARRAY-valued layer
     results as well, and forming them leaves every per-layer result (the objects also stored in tidal_heating_by_layer and exposed by the layers)
@@ -634,6 +721,59 @@ def _replay_strength(ob, res):
     try:
         v = out["result"]
         rec["confirmed"] = bool(abs(v["compliance_times_shear"] - 1.0) > 1e-12 or v["host_calls"] != 1 or v["body_calls"] != 1)
+    except Exception:
+        rec["confirmed"] = "exception" in out
+    return rec
+
+
+_C13_ORBIT_DERIVS = r'''
+import logging, warnings
+import numpy as np
+warnings.filterwarnings('ignore')
+from TidalPy.structures import build_world, build_from_world
+from TidalPy.structures.orbit import PhysicsOrbit
+from TidalPy.dynamics import semia_eccen_derivatives, semia_eccen_derivatives_dual
+logging.disable(logging.CRITICAL)
+cfg = {"force_spin_sync": False, "type": "simple_tidal", "mass": 5.972e24, "slices": 40,
+       "tides": {"model": "global_approx", "fixed_q": 125.0, "use_ctl": False, "eccentricity_truncation_lvl": 4, "max_tidal_order_l": 2, "obliquity_tides_on": True}}
+f = lambda x: float(np.asarray(x).ravel()[0])
+bad = []
+# body-only dissipation around a star
+star = build_world("55cnc"); w = build_from_world(build_world("earth_simple"), new_config=cfg)
+o = PhysicsOrbit(star, tidal_host=star, tidal_bodies=w)
+w.set_state(orbital_period=30.0, eccentricity=0.05, obliquity=0.1, spin_period=12.0)
+a, n, e = f(o.get_semi_major_axis(w)), f(o.get_orbital_frequency(w)), f(o.get_eccentricity(w))
+da, de = semia_eccen_derivatives(a, n, e, f(w.mass), f(w.dUdM), f(w.dUdw), f(star.mass))
+got = (f(o.get_semi_major_axis_time_derivative(w)), f(o.get_eccentricity_time_derivative(w)), f(o.get_orbital_motion_time_derivative(w)))
+want = (f(da), f(de), -1.5 * n / a * f(da))
+for g_, w_, nm in zip(got, want, ("da/dt", "de/dt", "dn/dt")):
+    if abs(g_ - w_) > 1e-9 * max(abs(w_), 1e-300): bad.append(["single", nm, g_, w_])
+# dual: both active
+h2 = build_from_world(build_world("earth_simple"), new_config=dict(cfg, mass=6.0e24)); b2 = build_from_world(build_world("earth_simple"), new_config=dict(cfg, mass=7.3e22))
+s2 = build_world("55cnc")
+o2 = PhysicsOrbit(s2, tidal_host=h2, tidal_bodies=b2, host_tide_raiser=b2)
+b2.set_state(orbital_period=20.0, eccentricity=0.08, obliquity=0.05, spin_period=5.0)
+h2.set_state(spin_period=1.5, obliquity=0.2)
+a, n, e = f(o2.get_semi_major_axis(b2)), f(o2.get_orbital_frequency(b2)), f(o2.get_eccentricity(b2))
+if h2.dUdM is not None and b2.dUdM is not None:
+    da, de = semia_eccen_derivatives_dual(a, n, e, f(h2.mass), f(h2.dUdM), f(h2.dUdw), f(b2.mass), f(b2.dUdM), f(b2.dUdw))
+    got = (f(o2.get_semi_major_axis_time_derivative(b2)), f(o2.get_eccentricity_time_derivative(b2)), f(o2.get_orbital_motion_time_derivative(b2)))
+    want = (f(da), f(de), -1.5 * n / a * f(da))
+    for g_, w_, nm in zip(got, want, ("da/dt", "de/dt", "dn/dt")):
+        if abs(g_ - w_) > 1e-9 * max(abs(w_), 1e-300): bad.append(["dual", nm, g_, w_])
+    dual_ran = True
+else:
+    dual_ran = False
+result = dict(bad=bad, dual_ran=dual_ran)
+'''
+
+
+def _replay_orbit_derivs(ob, res):
+    from tpv import native
+    out = native.run(dict(code=_C13_ORBIT_DERIVS), timeout=900)
+    rec = dict(replayed=True, native=out, what="orbit.get_*_time_derivative(world) vs the single / dual functional API at the orbit's current state (body-only around a star; host + tide raiser both active)")
+    try:
+        rec["confirmed"] = bool(out["result"]["bad"])
     except Exception:
         rec["confirmed"] = "exception" in out
     return rec
